@@ -156,23 +156,51 @@ PROPS = {
         findings_notes=["step_over_known"],
     ),
     "C16": dict(
-        lean_modules=["AlphaG.Props.C16"],
+        lean_modules=["AlphaG.Props.C16", "AlphaG.Props.C16b"],
         required_theorems=["AlphaG.Helix.closest_t_range", "AlphaG.Helix.closest_t_range_real",
                            "AlphaG.Helix.circle_case_optimal", "AlphaG.Helix.hasDerivAt_distSq",
-                           "AlphaG.Helix.kepler_iff_stationary"],
-        harness=[("c16", ["release"])],
+                           "AlphaG.Helix.kepler_iff_stationary"]
+            + ["AlphaG.C16b." + t for t in [
+                "distSq_formula", "e_lt_one_iff", "distSq_strictConvex_of_e_lt_one", "stationary_is_global_min_of_e_lt_one",
+                "stationary_unique_of_e_lt_one", "exists_unique_stationary_of_e_lt_one",
+                "kepler_root_is_global_min_of_e_lt_one", "clamp_is_interval_min_of_e_lt_one", "closestT_eq",
+                "keplerM_codeN_mem", "closestT_optimal_of_exact_root_of_e_lt_one",
+                "closestT_interval_optimal_of_exact_root_of_e_lt_one", "global_min_on_interval_is_stationary_or_endpoint",
+                "newton_kepler_tendsto_root", "newton_kepler_tendsto_root_neg", "newton_model_mem",
+                "newton_limit_is_global_min_of_e_lt_one", "newton_limit_is_root", "kepler_deriv_vanishes_of_one_le",
+                "distSq_not_convex_of_one_lt_e"]],
+        harness=[("c16", ["release"]), ("c14c", ["dev"])],
         disagreement_is_failing_input=False,
+        disagreement_failing_modules=["c14c"],
         level_text="Lean theorems: for any carrier with a linear order and an atan2 of range [-pi, pi] the value returned by "
                    "closest_t lies in [-pi, pi], whatever the pitch, tolerance or Newton iteration count (closest_t_range); "
                    "over the reals, for pitch exactly 0 the returned t minimises the distance over all t "
-                   "(circle_case_optimal, via |w| = Re(conj w e^{i arg w})). The optimality claim for h != 0 is decided on the "
-                   "implementation by an independent oracle (dense grid + golden-section refinement), i.e. by search.",
-        level_note="Partial: no theorem states that the Newton root reached in <= 20 f64 iterations is the global minimiser for "
-                   "h != 0 (Kepler's equation has several roots for e > 1), nor NaN-freedom in f64; both are sampled on the "
-                   "real code (85 k strictly-inside cases in the thorough tier, none further than 1e-9 m from the grid "
-                   "optimum). The Float model uses sqrt(x^2+y^2) for hypot and is compared to 1e-9, not bit-exactly.",
+                   "(circle_case_optimal, via |w| = Re(conj w e^{i arg w})). Over the reals, for pitch h != 0: dist^2(t) = R^2 + "
+                   "rho^2 - 2 R rho cos(t + phi0 - delta) + (h t/2pi + z0 - z)^2 (distSq_formula); when |e| < 1 (4 pi^2 rho |R| < "
+                   "h^2) it is strictly convex, has exactly one stationary point, that point is the strict global minimiser over "
+                   "all real t, and every solution of the code's Kepler equation maps back to it "
+                   "(kepler_root_is_global_min_of_e_lt_one); if the model's Newton loop ends on an exact root and the reported t "
+                   "is strictly inside (-pi, pi), the reported t is the global minimiser "
+                   "(closestT_optimal_of_exact_root_of_e_lt_one), and clamping gives the minimiser over [-pi, pi] otherwise "
+                   "(clamp_is_interval_min_of_e_lt_one). For 0 <= e < 1 Newton's iteration from the code's start (+-pi by the "
+                   "sign of M, with M in (-pi, pi] proved) stays between the unique root and the start, is monotone and converges "
+                   "to the root (newton_kepler_tendsto_root[_neg]); the model's own loop with any tolerance/fuel keeps that "
+                   "invariant (newton_model_mem); the limit maps to the global minimiser (newton_limit_is_global_min_of_e_lt_one). "
+                   "For any e a minimiser over [-pi, pi] exists and is an endpoint or a stationary point "
+                   "(global_min_on_interval_is_stationary_or_endpoint). For e >= 1 only weak facts are proved (g' vanishes, "
+                   "dist^2 is not convex for e > 1, a Newton limit with g' != 0 is a root); optimality for e >= 1 is decided on "
+                   "the implementation by the oracle (dense grid + golden-section refinement), i.e. by search.",
+        level_note="Partial: for |e| < 1 optimality of the exact Kepler root and monotone convergence of exact-arithmetic Newton "
+                   "to it are theorems; not proved: (i) that the f64 iterate returned after <= 20 steps / the tolerance test is "
+                   "within any stated distance of the root, (ii) global optimality when e >= 1 (several stationary points; "
+                   "dist^2 provably non-convex), (iii) NaN-freedom in f64, (iv) the case R < 0 (e < 0) for the Newton part. "
+                   "These are sampled on the real code (strictly-inside cases incl. the near-parabolic and degenerate-geometry "
+                   "families, none further than 1e-9 m from the grid optimum). The Float model of c16 uses sqrt(x^2+y^2) for "
+                   "hypot and is compared to 1e-9; the per-track t reported with a primary vertex is tied bit for bit by module "
+                   "c14c (vertexfit) and judged by the vertex-track-t oracle of c16.",
         technique="carrier-generic Lean model; theorem over any linear order + Mathlib real/complex analysis for the circle "
-                  "case; implementation oracle by dense search; tolerance-based correspondence check",
+                  "case; Mathlib convex analysis, extreme value theorem and monotone convergence of the Newton map for |e| < 1; "
+                  "implementation oracle by dense search; tolerance-based correspondence check",
         design_ref="DESIGN.md section 6, C16",
         rule="cases: helix centre within +-3 m, radius 0.03-5 m (log-uniform), any phase, pitch in {0, +-subnormal, "
              "eps/2..2eps, +-1e-17..+-1e2}; points anywhere in the drift volume, within 1 cm of the helix, "
